@@ -631,8 +631,10 @@ theorem C13_le_preorder :
   ⟨FileSkel.LeAny.refl, fun _ _ _ h1 h2 => h1.trans h2, fun _ _ h => h.any, fun _ _ h => h.any⟩
 
 /-- **Any admissible single edit, package level.** `Admissible pkg b e` (Compile/EvolveAdm.lean) lists
-the edit kinds proved above with their decidable side conditions (fresh names; for an option: the
-enum is not referred to by name). One statement for all of them, in the common relation. -/
+the eleven edit shapes proved above with their decidable side conditions: for field and declaration
+appends the newly exported names are new to the package (plus, for the `nested` / `optionDeep` shapes,
+"element `i` is an object or oneof"); option appends have NO side condition. One statement for all of
+them, in the common relation. -/
 theorem C13_append_any_pkg (b b' : Bundle) (pkg : Str) (e : Edit) (hadm : Admissible pkg b e)
     (he : e.apply pkg b = some b')
     (fs fs' : List FileSkel) (h : compilePkg b pkg = .ok fs) (h' : compilePkg b' pkg = .ok fs') :
@@ -964,7 +966,8 @@ example : (applyEdits b!"foo.v1" seqEdits (bun [])).isSome = true ∧
     (compilePkg (bunSeq 2) b!"foo.v1").isOk = true ∧ (compilePkg (bunSeq 3) b!"foo.v1").isOk = true ∧
     (bunSeq 3).pkgs.length = 1 := by decide
 
-example : Admissible b!"foo.v1" (bun []) (.appendDecl 0 newDecl) := by
+/-- the first edit of `seqEdits` is admissible for the first version -/
+theorem adm_seq1 : Admissible b!"foo.v1" (bun []) (.appendDecl 0 newDecl) := by
   apply Admissible.decl
   intro p path imports elems decl hf hget n hn
   have hp : p = { name := b!"foo.v1", files := [fileA [], fileB] } := by
@@ -982,6 +985,58 @@ example : Admissible b!"foo.v1" (bun []) (.appendDecl 0 newDecl) := by
   simp only [List.mem_singleton] at hn
   subst hn
   decide
+
+/-- the second edit is admissible for the second version (the one new name `A.Zz` is fresh) -/
+theorem adm_seq2 : Admissible b!"foo.v1" (bun [newDecl]) (.appendField 0 [.el 0] newProp) := by
+  apply Admissible.field
+  intro p path imports E1 E2 io n ps ne psm decl hf hget hlen x hx
+  have hp : p = { name := b!"foo.v1", files := [fileA [newDecl], fileB] } := by
+    have h0 : (bun [newDecl]).find b!"foo.v1" = some { name := b!"foo.v1", files := [fileA [newDecl], fileB] } := rfl
+    rw [h0] at hf; exact (Option.some.inj hf).symm
+  subst hp
+  have hE1 : E1 = [] := List.length_eq_zero_iff.mp hlen
+  subst hE1
+  have hn : n = b!"A" := by
+    simp only [fileA, List.getElem?_cons_zero, Option.some.injEq, SrcFile.j5s.injEq, List.nil_append,
+      List.cons_append, List.cons.injEq] at hget
+    have h1 := hget.2.2.1.1
+    cases io
+    · simp only [declElem, Elem.object.injEq, ObjDecl.mk.injEq] at h1
+      exact h1.1.symm
+    · simp [declElem] at h1
+  subst hn
+  have h1 : newFieldExportNames b!"A" newProp = [b!"A.Zz"] := by decide
+  have h2 : pkgExportNames { name := b!"foo.v1", files := [fileA [newDecl], fileB] } = [b!"A", b!"E", b!"B"] := by decide
+  rw [h1] at hx
+  rw [h2]
+  simp only [List.mem_singleton] at hx
+  subst hx
+  decide
+
+/-- the bundle after the first two edits of `seqEdits` -/
+def bunSeq2 : Bundle :=
+  { pkgs := [ { name := b!"foo.v1", files :=
+      [.j5s b!"foo/v1/a.j5s" []
+        [.object (.mk b!"A" [.mk b!"x" false false (.string [] false), newProp] [] none), newDecl] b!"foo.v1",
+       fileB] } ] }
+
+/-- **`SeqOk` for the whole sequence** — the full hypothesis of `C13_append_seq_pkg` on three edits of
+three kinds (declaration, field with an inline object, option of the enum just declared): every edit
+is `Admissible` for the version it is applied to and every intermediate version compiles -/
+theorem C13_seq_example : SeqOk (Admissible b!"foo.v1") b!"foo.v1" seqEdits (bun []) := by
+  have a1 : (Edit.appendDecl 0 newDecl).apply b!"foo.v1" (bun []) = some (bun [newDecl]) := rfl
+  have a2 : (Edit.appendField 0 [.el 0] newProp).apply b!"foo.v1" (bun [newDecl]) = some bunSeq2 := rfl
+  refine ⟨adm_seq1, ?_⟩
+  intro b1 h1
+  rw [a1] at h1
+  obtain rfl := Option.some.inj h1
+  refine ⟨fun _ => by decide, adm_seq2, ?_⟩
+  intro b2 h2
+  rw [a2] at h2
+  obtain rfl := Option.some.inj h2
+  refine ⟨fun _ => by decide, Admissible.option 0 1 b!"TWO", ?_⟩
+  intro b3 _
+  exact ⟨fun h => absurd rfl h, trivial⟩
 
 /-! ## Source-fact obligations (regenerated by `extract/evolve.go` from the current source)
 
